@@ -321,6 +321,46 @@ pub fn trand(g: &mut Gen, r: &mut Rng, cfg: &TRandCfg) {
 }
 
 // ------------------------------------------------------------------------------------------------
+// T-long: very long batches of upserts between two hash requests; the staleness gate and the
+// regenerated hash are probed around the power-of-two batch lengths where narrow counters wrap
+// ------------------------------------------------------------------------------------------------
+
+pub fn tlong(g: &mut Gen, shard: usize) {
+    if shard != 0 {
+        return;
+    }
+    let n = 2usize;
+    let base = 16u8;
+    set_val_pos(1);
+    let keys: Vec<Vec<u8>> = (0..3u8).map(|i| vec![0x50 + i]).collect();
+    let kds: Vec<Vec<u8>> = (0..3).map(|i| digest_for_level(i as u32 % 2, base, n, i as u8 * 2)).collect();
+    g.op(format!("new 0 {base} n={n}"));
+    g.op("hash 0".into());
+    let probes = [1usize, 2, 127, 128, 129, 255, 256, 257, 511, 512, 4095, 4096, 32767, 32768, 65535, 65536, 65537, 131072];
+    let mut count = 0usize;
+    let last = *probes.last().unwrap();
+    while count < last {
+        let i = count % 3;
+        let v = 1 + ((count / 3) % 2) as u8;
+        g.op(format!("ups 0 {} {} {}", xtok(&keys[i]), xtok(&kds[i]), xtok(&val_digest(v, n))));
+        count += 1;
+        if probes.contains(&count) {
+            g.cases += 1;
+            // batch of `count` upserts since the last hash: gate closed, then regenerate and compare
+            g.op("cach 0".into());
+            g.op("ser 0".into());
+            g.op("clone 1 0".into());
+            g.op("hash 1".into());
+            g.op("ser 1".into());
+            g.shapes.insert(count as u64);
+        }
+    }
+    g.op("hash 0".into());
+    g.op("trav 0 -".into());
+    g.sample(format!("tlong: one batch of {last} upserts after a hash, probed at {probes:?}"));
+}
+
+// ------------------------------------------------------------------------------------------------
 // T-wide: pages with hundreds of nodes (skewed level distribution), re-upserts and overwrites
 // ------------------------------------------------------------------------------------------------
 
